@@ -97,7 +97,12 @@ def run_deriv(case):
     import warnings
     op = case['op']
     od = case['opds']
-    if case['deriv'] == 'rhs':
+    if case['deriv'] == 'rhsd':
+        # the RIGHT operand (divisor) carries d_db = dy; the left one has no derivatives
+        x, y, dy = [K.build(o) for o in od]
+        y.insert_deriv('b', dy)
+        f = {'div': lambda: x / y, 'vdiv': lambda: x / y, 'element_div': lambda: x.element_div(y), 'mdiv': lambda: x / y}[op]
+    elif case['deriv'] == 'rhs':
         # x carries d_da = dx; the right operand is ANY spelling of a divisor: Python int/float/bool, NumPy scalar,
         # 0-d array, array, Scalar (without derivatives)
         x, y, dx = [K.build(o) for o in od]
@@ -132,11 +137,11 @@ def impl(case):
         return ['warn', w[0]]
     op = case['op']
     if case.get('deriv'):
-        exact = (op in ('div', 'reciprocal', 'qrecip') and case['deriv'] != 'rhs') or (case.get('req') and case['req'][1] == 'div_num_d') or (op == 'pow' and case.get('req') and case['req'][1] == 'recip_d')
+        exact = (op in ('div', 'reciprocal', 'qrecip') and case['deriv'] not in ('rhs', 'rhsd')) or (case.get('req') and case['req'][1] == 'div_num_d') or (op == 'pow' and case.get('req') and case['req'][1] == 'recip_d')
         res = [obs(r, exact)]
-        for key in (['a', 'b'] if (op == 'div' and case['deriv'] != 'rhs') else ['a']):
+        for key in (['a', 'b'] if (op == 'div' and case['deriv'] not in ('rhs', 'rhsd')) else ['b'] if case['deriv'] == 'rhsd' else ['a']):
             d = r._derivs_.get(key)
-            dexact = (op in ('div', 'reciprocal', 'log') and case['deriv'] != 'rhs') or (case.get('req') and case['req'][1] == 'div_num_d') or (op == 'pow' and case.get('req') and case['req'][1] == 'recip_d')
+            dexact = (op in ('div', 'reciprocal', 'log') and case['deriv'] not in ('rhs', 'rhsd')) or (case.get('req') and case['req'][1] == 'div_num_d') or (op == 'pow' and case.get('req') and case['req'][1] == 'recip_d')
             res.append(obs(d, dexact) if d is not None else 'no-deriv')
         return res
     if op == 'pow' and case['req'] is not None and case['req'][1] in ('pow0D', 'powArr'):
@@ -157,6 +162,8 @@ def request(case):
     par = case.get('params', {})
     if any(o.get('scale') for o in opds):
         return None                                        # scaled data: judged by the direct oracle only
+    if case.get('deriv') == 'rhsd':
+        return None
     if case.get('deriv') == 'rhs':
         if op in ('div', 'vdiv') and kinds[1] == 'number' and op == 'div':
             return ['c02', 'div_num_d', [int(opds[1]['v8'][0])], [W[0], K.c02_opd(case['opds'][2])]]
@@ -252,7 +259,7 @@ def base_case(case):
     if not case.get('deriv'):
         return case
     od = case['opds']
-    if case['deriv'] == 'rhs' or case['op'] == 'div':
+    if case['deriv'] in ('rhs', 'rhsd') or case['op'] == 'div':
         opds = od[:2]
     elif case['op'] == 'pow':
         opds = [od[0], {'k': 'N', 'shape': [], 'v8': [int(case['expo'] * 8)]}]
@@ -273,6 +280,8 @@ def oracle(case):
     if e is not None:
         if is_fast(case) and isinstance(e, ValueError) and K.undefined_unmasked(dict(base, params={})) :
             return None
+        if OPS[case['op']].get('inplace') and isinstance(e, (TypeError, ValueError)):
+            return None                                    # the in-place form is not accepted: C19's business
         return (sig('exc=' + type(e).__name__), '%s raised %s: %s' % (case['op'], type(e).__name__, e))
     if not isinstance(r, Qube):
         return (sig('type'), '%s returned %s' % (case['op'], type(r).__name__))
@@ -464,6 +473,31 @@ def gen_cases(rng, tier):
                     a = G.rand_opd(rng, km, s)
                     if G.lapack_agrees(a):
                         cases.append(mk({'op': op, 'opds': [a, dop(km, s)], 'deriv': True}))
+    # 4b'. the DIVISOR carries derivatives and has exact zeros (element_div, Vector / Scalar, Scalar / Scalar)
+    for _ in range(reps * 2):
+        for op, kx, ky in (('element_div', 'V3', 'V3'), ('element_div', 'P', 'P'), ('vdiv', 'V3', 'S'), ('vdiv', 'Q', 'S'),
+                           ('div', 'S', 'S'), ('mdiv', 'M2', 'S')):
+            for sa, sb in G.SHAPE_PAIRS:
+                if K.lead_bcast([sa, sb]) is None or (not thorough and rng.random() < 0.5):
+                    continue
+                cases.append(mk({'op': op, 'opds': [G.rand_opd(rng, kx, sa), G.rand_opd(rng, ky, sb, 'div'), dop(ky, sb)],
+                                 'deriv': 'rhsd'}))
+    # 4b''. in-place forms of the restricted-domain binary operators, also on item-rank >= 1 targets (warnings observed)
+    INTO = [(sa, sb) for sa, sb in G.SHAPE_PAIRS if K.lead_bcast([sa, sb]) == list(sa)]
+    for _ in range(reps):
+        for op, kx in (('idiv', 'S'), ('ifloordiv', 'S'), ('imod', 'S'), ('ifloordiv', 'Si'), ('imod', 'Si'), ('ivdiv', 'V3'),
+                       ('ivdiv', 'P'), ('ivmod', 'V3'), ('ivmod', 'P'), ('ivmod', 'V2'), ('ivfloordiv', 'V3'), ('ivfloordiv', 'P'),
+                       ('ivdiv', 'Q'), ('ivdiv', 'M2')):
+            for ky in ('S', 'Si', 'N', 'Ni', 'A'):
+                for sa, sb in INTO:
+                    if KINDS[ky][0] == 'number' and sb:
+                        continue
+                    if not thorough and rng.random() < 0.5:
+                        continue
+                    y = G.rand_opd(rng, ky, sb, 'div')
+                    if KINDS[ky][0] == 'number' and rng.random() < 0.5:
+                        y['v8'] = [0]
+                    cases.append(mk({'op': op, 'opds': [G.rand_opd(rng, kx, sa), y]}))
     # 4c. the matrix inverse in every spelling, also on tiny but perfectly conditioned matrices (entries scaled by exact
     #     powers of two 2**-7 ... 2**-40): masked iff the determinant is EXACTLY zero or the operand is masked
     for _ in range(reps * 2):
